@@ -286,7 +286,7 @@ class System:
             if I.n_global_probes():
                 probs.append("global_probes is not empty")
             for k, v in w.ns.items():
-                if isinstance(k, str) and k.startswith(("__ptera_", "_ptera__")):
+                if isinstance(k, str) and k.startswith(("__ptera", "_ptera")):
                     continue
                 if k not in w.globals_before:
                     probs.append(f"module global {k!r} was added")
